@@ -2,6 +2,7 @@ package props
 
 import (
 	"fmt"
+	"strings"
 
 	"github.com/trajectoryjp/spatial_id_go/v4/detector"
 
@@ -144,6 +145,38 @@ func init() {
 				}
 				return false
 			}
+			// index-collision pool: voxels at different zooms whose raw numbers coincide (same x, y and the
+			// same f + 2^(z-1), the index the radix-tree form feeds to the tree): any shortcut keyed on
+			// the numbers without the zoom confuses them
+			var poolLow, poolHigh []ref.Vox
+			lowZ := []int64{1, 2, 3}
+			if tier == "thorough" {
+				lowZ = []int64{1, 2, 3, 4}
+			}
+			for _, z := range lowZ {
+				half := int64(1) << uint(z-1)
+				for x := int64(0); x <= 1; x++ {
+					for y := int64(0); y <= 1; y++ {
+						for f := -half; f < half; f++ {
+							poolLow = append(poolLow, ref.Vox{H: z, X: x, Y: y, V: z, F: f})
+						}
+					}
+				}
+			}
+			for _, z := range []int64{25, 26, 27} {
+				half := int64(1) << uint(z-1)
+				for _, idx := range []int64{0, 1, 1 << 24, 1 << 25, 1<<25 + 1} {
+					if idx >= 2*half {
+						continue
+					}
+					for x := int64(0); x <= 1; x++ {
+						for y := int64(0); y <= 1; y++ {
+							poolHigh = append(poolHigh, ref.Vox{H: z, X: x, Y: y, V: z, F: idx - half})
+						}
+					}
+				}
+			}
+			pools := [][]ref.Vox{poolLow, poolHigh}
 			kList := 6
 			if tier == "thorough" {
 				kList = 9
@@ -250,6 +283,42 @@ func init() {
 						got2, err2 := detector.CheckExtendedSpatialIdsOverlap(a.Ext(), b.Ext())
 						if err == nil && err2 == nil && got != got2 {
 							c.Violation("C05:CheckSpatialIdsOverlap:disagrees-with-extended-check", d)
+						}
+					}},
+				{Name: "index-collision-lists", ShardDepth: 3, Bounds: engine.Bounds{InputDev: -1},
+					Rule: "two pools of h=v voxels whose raw numbers coincide across zooms (zooms 1..3(4): all f x (x,y) in {0,1}^2; zooms 25..27: equal tree indices): all triples ([a],[b1,b2]) and ([b1,b2],[a]) through both array forms vs the disjunction of ref.Overlap; non-trivial = distinct triples where b1 and b2 are at different zooms",
+					Body: func(c *engine.Ctx) {
+						pool := pools[c.In("pool", 2)]
+						a := pool[c.In("a", len(pool))]
+						b1 := pool[c.In("b1", len(pool))]
+						b2 := pool[c.In("b2", len(pool))]
+						want := ref.Overlap(a, b1) || ref.Overlap(a, b2)
+						A := []string{a.Spatial()}
+						B := []string{b1.Spatial(), b2.Spatial()}
+						if b1.H != b2.H {
+							c.Nontrivial(fmt.Sprint(A, B))
+						}
+						type res struct {
+							name string
+							got  bool
+							err  error
+						}
+						var rs []res
+						g, e := detector.CheckSpatialIdsArrayOverlap(A, B)
+						rs = append(rs, res{"CheckSpatialIdsArrayOverlap(A,B)", g, e})
+						g, e = detector.CheckSpatialIdsArrayOverlap(B, A)
+						rs = append(rs, res{"CheckSpatialIdsArrayOverlap(B,A)", g, e})
+						g, e = detector.CheckExtendedSpatialIdsArrayOverlap([]string{a.Ext()}, []string{b1.Ext(), b2.Ext()})
+						rs = append(rs, res{"CheckExtendedSpatialIdsArrayOverlap(A,B)", g, e})
+						g, e = detector.CheckExtendedSpatialIdsArrayOverlap([]string{b1.Ext(), b2.Ext()}, []string{a.Ext()})
+						rs = append(rs, res{"CheckExtendedSpatialIdsArrayOverlap(B,A)", g, e})
+						c.Observe("%v %v %v", A, B, rs)
+						c.Outcome(fmt.Sprint(want, rs[0].got))
+						for _, r := range rs {
+							if r.err != nil || r.got != want {
+								c.Violation("C05:"+strings.SplitN(r.name, "(", 2)[0]+":answer-differs-from-model[numbers-coincide-across-zooms]",
+									map[string]any{"call": r.name, "A": A, "B": B, "got": r.got, "want": want, "err": fmt.Sprint(r.err)})
+							}
 						}
 					}},
 				{Name: "spatial-lists", ShardDepth: 2, Bounds: engine.Bounds{InputDev: -1},
